@@ -166,6 +166,11 @@ func genC20Plan(r *zsim.Rng) *sysPlan {
 			ps.LingerMs = []int{3000, 20000, 60000}[r.Intn(3)]
 		}
 		ps.Fork = r.Chance(1, 3)
+		if !ps.StartErr && !ps.Fork && ps.LingerMs == 0 && r.Chance(1, 8) {
+			// the command leaves a process behind that has left its process group and still holds the output
+			// pipe (`setsid -f sleep 3600`, a daemon started from the preview script)
+			ps.DetachMs = []int{60000, 600000, 3600000}[r.Intn(3)]
+		}
 		p.Procs = append(p.Procs, ps)
 	}
 	p.Events = append(p.Events, sysEvent{Kind: "settle"})
@@ -231,7 +236,8 @@ func runC20(c *runCtx) {
 			ps = plan.Procs[r.genSeq["PV"]%len(plan.Procs)]
 		}
 		r.genSeq["PV"]++
-		sc := simos.Script{StartErr: ps.StartErr, Endless: ps.Endless, ExitCode: ps.Exit, Fork: ps.Fork, LingerMs: clampInt(ps.LingerMs, 0, 120000)}
+		sc := simos.Script{StartErr: ps.StartErr, Endless: ps.Endless, ExitCode: ps.Exit, Fork: ps.Fork, LingerMs: clampInt(ps.LingerMs, 0, 120000),
+			DetachMs: clampInt(ps.DetachMs, 0, 3600000)}
 		// text split into chunks of lines
 		lines := strings.SplitAfter(ps.Text, "\n")
 		if len(lines) > 0 && lines[len(lines)-1] == "" {
@@ -408,17 +414,30 @@ func c20Settle(r *sysRun, busy bool) {
 	if len(want) > 0 && want[len(want)-1] == "" {
 		want = want[:len(want)-1]
 	}
+	// A process the command has left behind outside its process group still holds the pipe: to whoever reads
+	// it the output is not complete, exactly as if the command were still running.
+	lastAlive := last.Alive
+	for _, p := range r.os.Snapshot() {
+		if p.Detached && p.Parent == last && p.Alive {
+			lastAlive = true
+			c.count("probe.pipe_held_by_detached_process", 1)
+		}
+	}
+	if lastAlive && len(want) > 0 && !strings.HasSuffix(want[len(want)-1], "\n") {
+		// a line is shown once it is complete, or when the output ends
+		want = want[:len(want)-1]
+	}
 	// (a command that is still running and has not produced anything yet leaves the previous content in place)
-	if !busy && last.Consumed == last.Emitted.Len() && (!last.Alive || last.Emitted.Len() > 0) {
+	if !busy && last.Consumed == last.Emitted.Len() && (!lastAlive || len(want) > 0) {
 		got := t.previewer.lines
-		if last.ExitCode == 127 && !last.Alive && last.Emitted.Len() == 0 && len(got) == 1 {
+		if last.ExitCode == 127 && !lastAlive && last.Emitted.Len() == 0 && len(got) == 1 {
 			// start failure: the pane shows the error text
 		} else if strings.Join(got, "") != strings.Join(want, "") {
 			c.violate("c20.pane", "preview pane holds %q, the command that ran last (%q) has emitted %q", clip([]byte(strings.Join(got, ""))), last.Command, clip([]byte(strings.Join(want, ""))))
 		}
 	}
 	// a command that has ended without printing anything leaves nothing behind that says it is still loading
-	if !busy && !last.Alive && last.Emitted.Len() == 0 && last.ExitCode != 127 && t.pwindow != nil && len(c.viol) == 0 {
+	if !busy && !lastAlive && last.Emitted.Len() == 0 && last.ExitCode != 127 && t.pwindow != nil && len(c.viol) == 0 {
 		pw := t.pwindow
 		scr := r.tty.Screen()
 		for i := 0; i < pw.Height(); i++ {
@@ -438,7 +457,7 @@ func c20Settle(r *sysRun, busy bool) {
 		c.count("probe.silent_command_checked", 1)
 	}
 	// … and what the pane holds is what is on the screen (simple output: short ASCII lines that fit, no scrolling)
-	if !busy && !last.Alive && last.Consumed == last.Emitted.Len() && t.pwindow != nil && len(c.viol) == 0 {
+	if !busy && !lastAlive && last.Consumed == last.Emitted.Len() && t.pwindow != nil && len(c.viol) == 0 {
 		pw := t.pwindow
 		top, left, width, height := pw.Top(), pw.Left(), pw.Width(), pw.Height()
 		// (a pane scrolled by hand or by follow mode shows the lines from its scroll offset on - the offset is state,
